@@ -24,6 +24,9 @@ pub mod parse;
 
 pub mod io;
 
+#[cfg(feature = "verif")]
+pub mod verif_hooks;
+
 const TARGET: &str = "target";
 const SOURCE: &str = "src";
 
